@@ -552,10 +552,12 @@ class C10(Check):
             if idx is None:
                 viol("I4-carries-on-after-change-attempt", "keeps-serving:" + case["platform"],
                      {"replies": out["replies"], "acked": len(dev.acked)}, "manager stops")
-        if not dev.acked and fs.history:
-            viol("I1-file-changed-without-ack", case["platform"], {"writes": fs.history}, "untouched")
+        # the statement is about the PIN file: scratch / staging files next to it are not it
+        pin_hist = [h for h in fs.history if h[0] == PIN_FILE]
+        if not dev.acked and pin_hist:
+            viol("I1-file-changed-without-ack", case["platform"], {"writes": pin_hist}, "untouched")
         if dev.acked:
-            complete = [h for h in fs.history if h[1] != b""]
+            complete = [h for h in pin_hist if h[1] != b""]
             if complete and complete[-1][1] != dev.acked[-1]:
                 viol("I1-file-holds-other-pin", case["platform"], {"written": complete[-1][1]}, "acked PIN")
 
@@ -587,14 +589,15 @@ class C10(Check):
             if len(lt["seen"]) > 1:
                 viol("I3-more-than-one-new-pin-per-lifetime", platform, {"pins": lt["seen"]}, "<= 1")
             # I1: the file changes only after the device acknowledged a new PIN, and then holds it
-            if lt["hist"]:
+            pin_hist = [h for h in lt["hist"] if h[0] == PIN_FILE]     # the PIN file itself, not its neighbours
+            if pin_hist:
                 if not lt["acked"]:
                     viol("I1-file-changed-without-ack", platform,
-                         {"file_before": b["file"], "writes": lt["hist"], "faults": list(taken)},
+                         {"file_before": b["file"], "writes": pin_hist, "faults": list(taken)},
                          "file untouched")
                 else:
                     final = lt["file"]
-                    complete = [h for h in lt["hist"] if h[1] != b""]
+                    complete = [h for h in pin_hist if h[1] != b""]
                     if complete and complete[-1][1] != lt["acked"][-1]:
                         viol("I1-file-holds-other-pin", platform,
                              {"written": complete[-1][1], "acked": lt["acked"][-1]}, "the acknowledged PIN")
